@@ -19,7 +19,7 @@
     order and how often is modelled by hand and tied by the differential only; the result mapping is proved for the client half
     (C03_returns) and for errors (C03_errno_...). *)
 From Coq Require Import ZArith NArith String List Bool.
-From P9V Require Import gen.ConstGen gen.ClientGen Client.Chunk Client.ClientModel Client.ClientProofs Client.ChunkProofs Client.Errs Client.Composed Client.HandlerTie gen.ResultGen Client.Results Client.PathSeq Client.PathSeqTie Client.PathSeqTieProofs.
+From P9V Require Import gen.ConstGen gen.ClientGen Client.Chunk Client.ClientModel Client.ClientProofs Client.ChunkProofs Client.Errs Client.Composed Client.HandlerTie gen.ResultGen Client.Results Client.PathSeq Client.PathSeqTie Client.PathSeqTieProofs gen.ErrnoGen Client.ErrnoTie.
 Import ListNotations.
 Open Scope string_scope.
 
@@ -98,6 +98,19 @@ Print Assumptions C03_errno_trees.
 
 Theorem C03_errno_first_linux_leaf : forall e n, first_some is_linux (leaves e) = Some n -> extract e = n.
 Proof. exact extract_first_linux_leaf. Qed.
+
+(** TIE BY TRANSLATION: gen/ErrnoGen.v holds linux.ExtractErrno and (the linux build's) sysErrno as go2coq
+    TRANSLATED them from linux/errors.go and linux/errors_linux.go on this run -- the order of the tests, the
+    value each returns, the os.Err* table with its errnos, the EIO default; it IS [extract], for every error
+    tree, so the C03_errno_* theorems are theorems about what the source says (errors.As / errors.Is are the
+    tree walks [find] / [has] of Client/Errs.v: hand models of the standard library, trusted). *)
+Theorem C03_source_errno_is_model : forall e, gen_ExtractErrno e = extract e.
+Proof. exact gen_ExtractErrno_is_model. Qed.
+Print Assumptions C03_source_errno_is_model.
+Theorem C03_source_errno_wrapped : forall k e, gen_ExtractErrno (wrapn k e) = gen_ExtractErrno e.
+Proof. exact source_errno_through_wraps. Qed.
+Theorem C03_source_errno_first_linux_leaf : forall e n, first_some is_linux (leaves e) = Some n -> gen_ExtractErrno e = n.
+Proof. exact source_errno_first_linux_leaf. Qed.
 
 (** a failing backend Close reaches newErr as errors.Join(fmt.Errorf("file: %w", err)) (fidRef.DecRef): same errno;
     a walker following only Unwrap() error (errors.Unwrap) loses it — the witness of seeded change C03-m4 *)
